@@ -1034,10 +1034,14 @@ def rule_decoder_semantic(rep, m):
             wr, wout = ref(inp, ol)
             got = mc.load(ob, 8)
             gb = bytes(to_int(got[8 * k:8 * k + 8]) for k in range(8)) if is_const(got) else None
-            okout = gb is not None and gb[len(wout):] == b"\xee" * (8 - len(wout)) and (wr < 0 or gb[:len(wout)] == bytes(wout))
+            # the property fixes the result, the decoded bytes on success, and that nothing beyond the
+            # `ol` bytes of space is written; what the space holds after a failure is not specified
+            okout = gb is not None and gb[ol:] == b"\xee" * (8 - ol) and (wr < 0 or gb[:len(wout)] == bytes(wout))
             if r != wr or not okout:
-                bad.append("input %r with room for %d byte(s): returned %d and wrote %s, documented: %d and %s" % (
-                    inp, ol, r, gb[:max(len(wout), 1)].hex() if gb else "?", wr, bytes(wout).hex() or "nothing"))
+                over = gb is not None and gb[ol:] != b"\xee" * (8 - ol)
+                bad.append("input %r with room for %d byte(s): returned %d and left %s in the buffer%s, documented: %d and %s" % (
+                    inp, ol, r, gb.hex() if gb else "?", " (bytes beyond the space given were written)" if over else "",
+                    wr, (bytes(wout).hex() or "nothing") if wr >= 0 else "no write beyond the space given"))
     except Unsupported as e:
         rep.unproved_item(rid, "ascon_bytes_from_hex: %s" % e)
         return
